@@ -804,10 +804,23 @@ class Element(object):
         return self._parent
 
     def _set_parent(self, parent):
+        previous = self.__dict__.get('_parent')
+        previous_traversal = self.__dict__.get('_traversal_parent')
         self._parent = parent
         if parent is not None:
             self.traversal_parent = None
-            self.parent.add(self)
+            try:
+                self.parent.add(self)
+            except Exception:
+                # the new parent refuses the element: it stays where it was
+                self._parent = previous
+                self._traversal_parent = previous_traversal
+                raise
+            if previous_traversal is not None and previous_traversal is not parent:
+                previous_traversal.children._remove_from_traversal_index(self)
+        if previous is not None and previous is not parent and any(c is self for c in previous.children.list):
+            # an element is the child of one parent only (of none, when the parent is set to None)
+            previous.children.remove(self)
 
     parent = property(_get_parent, _set_parent,
                       doc="The parent :class:`Element <hl7apy.core.Element>` of this one")
